@@ -31,8 +31,28 @@ def main():
         rep = Report(pid, a.tier)
         mod.check(ctx, rep)
         meta = getattr(mod, "META", {})
+        selftest_problem = None
+        if a.tier == "thorough" and not os.environ.get("SA_SELFTEST_CHILD") and not os.environ.get("SA_NO_SELFTEST"):
+            from sa import selftest
+            from sa.report import triage
+            main_verdict = "violation" if triage(rep)[0] else "pass"
+            st = selftest.run(pid, a.repo, main_verdict)
+            rep.extra["selftest"] = st
+            b, g = st["breaking"], st["benign"]
+            print(f"SELF-TEST property={pid}: breaking variants {b['detected']}/{b['total'] - b['skipped']} reported "
+                  f"({b['declared_uncovered']} declared uncovered, {b['skipped']} skipped); "
+                  f"benign variants {g['same_verdict']}/{g['total'] - g['skipped']} same verdict as the tree ({g['skipped']} skipped)")
+            for m in b["missed"]:
+                print(f"SELF-TEST-MISSED {m}")
+            for m in g["alarms"]:
+                print(f"SELF-TEST-ALARM {m}")
+            if main_verdict == "pass" and (b["missed"] or g["alarms"]):
+                selftest_problem = f"{len(b['missed'])} breaking variant(s) not reported, {len(g['alarms'])} benign variant(s) changed the verdict"
         rc = finish(rep, level=meta.get("level", "other"), explanation=meta.get("explanation", mod.__doc__ or ""),
                     assumptions=meta.get("assumptions", ()), trusted=meta.get("trusted", ()))
+        if rc == 0 and selftest_problem:
+            print(f"ANALYSIS-ERROR property={pid}: checker self-test failed: {selftest_problem}")
+            sys.exit(2)
         sys.exit(rc)
     except (AnalysisError, Budget) as e:
         print(f"ANALYSIS-ERROR property={pid}: {e}")
